@@ -22,4 +22,53 @@ def units(tier, seed):
 
 
 run_unit = KC.run_c11
-replay = KC.replay_c11
+
+
+def _dispatch_probe(modname, clsname, how):
+    """build the decorator with maxsize passed as `how` and a full configuration; -> None or what was not handed on"""
+    import importlib
+    import klepto.keymaps as KM
+    import klepto.archives as A
+    cls = getattr(importlib.import_module(modname), clsname)
+    cfg = {'cache': A.dict_archive('d', cached=True), 'keymap': KM.stringmap(), 'ignore': ('y', 'z'), 'tol': 2, 'deep': True}
+    pos, kw = {'positional 0': ((0,), {}), 'keyword 0': ((), {'maxsize': 0}), 'positional None': ((None,), {}), 'keyword None': ((), {'maxsize': None}),
+               'positional M': ((3,), {}), 'keyword M': ((), {'maxsize': 3}), 'default': ((), {})}[how]
+    d = cls(*pos, **dict(kw, **cfg))
+    for k, v in cfg.items():
+        got = d.__state__.get(k)
+        if not (got is v or (k in ('ignore', 'tol', 'deep') and got == v)):
+            return '%s.%s(%s, **configuration) is a %s whose %r is %r, not the %r that was passed' % (
+                modname, clsname, how, type(d).__name__, k, got, v)
+    return None
+
+
+def level_a_search(name):
+    head = name.split('.__new__')[0]
+    if ':' not in head or 'dispatch' not in name:
+        return None
+    modfile, clsname = head.split(':')
+    for how in ('positional 0', 'keyword 0', 'positional None', 'keyword None', 'positional M', 'keyword M', 'default'):
+        try:
+            why = _dispatch_probe('klepto.' + modfile, clsname, how)
+        except Exception as e:      # noqa
+            why = 'raises %r' % (e,)
+        if why:
+            return {'dispatch': ['klepto.' + modfile, clsname, how]}
+    return None
+
+
+def replay(w):
+    if 'dispatch' in w:
+        try:
+            why = _dispatch_probe(*w['dispatch'])
+        except Exception as e:      # noqa
+            why = 'raises %r' % (e,)
+        return bool(why), why or 'the whole configuration is handed on'
+    return KC.replay_c11(w)
+
+
+def level_a(tier):
+    """the maxsize dispatch (__new__) of the bounded decorator classes hands `ignore` on to the class it picks (x8 classes x7 ways of
+    passing maxsize), proved by pyvc"""
+    from checks import wrapperprops
+    return wrapperprops.level_a_summary('C11', tier)
